@@ -153,3 +153,166 @@ class ProcessFieldValue(Contract):
 
 
 CONTRACTS = [ParseInputFieldDefaultValue(), ProcessFieldValue(), _Callee()]
+
+
+# ------------------------------------------------------------------------------------------ the input model class
+# InputTypesGenerator._parse_input_definition for every input object type (loop invariant over the fields):
+#   class <Name>(BaseModel) with one annotated assignment per schema field, in schema order:
+#     target     = the Python name of the field
+#     annotation = the image of its GraphQL type (c06_input_types.img_in)
+#     value      = its default expression; when the Python name differs from the GraphQL name: Field(alias=<GraphQL name>, + that default)
+from .c06_input_types import img_in, leaf_in, SCALARS                     # noqa: E402
+from .c09_pruning import FakeSchema                                          # noqa: E402
+
+PYNAME_IN = z3.Function("python_name_of_input_field", V.Val, V.Val, V.Val)   # (graphql name, snake flag) -> python name
+
+
+class _ProcessNameStubIn(Contract):
+    """assumed here (proved under C18): process_name is a function of the name and the flags"""
+    props = ("C06",)
+    assumed = True
+    target = "ariadne_codegen.utils:process_name"
+
+    def setup(self, E):
+        return [], dict(name=E.sym("name", GQ.NAME), convert_to_snake_case=E.sym_bool("convert_to_snake_case"), plugin_manager=None, node=None,
+                        trim_leading_underscore=True, handle_pydantic_resrved_field_names=True)
+
+    def result_term(self, A):
+        return PYNAME_IN(A.name, A.convert_to_snake_case)
+
+    def ensures(self, A, res):
+        return {"function-of-name-and-flags": z3.And(res == self.result_term(A), V.is_VStr(res))}
+
+
+def default_expr(node, annotation, field_type, field):
+    """spec function of parse_input_field_default_value (its own contract proves the three clauses)"""
+    A = Args(node=node, annotation=annotation, field_type=field_type, field=field)
+    d = default_literal(A)
+    nullable = z3.Or(z3.And(z3.Not(V.is_VNone(node)), V.cls_of(V.attr_of(node, G.InputValueDefinitionNode, "type")) != V.REG.info(G.NonNullTypeNode).cid),
+                     is_optional_annotation(annotation))
+    return z3.If(z3.Not(V.is_VNone(d)), lit_expr(d, field_type, z3.BoolVal(False), z3.BoolVal(False)),
+                 z3.If(nullable, const(V.VNone), V.VNone))
+
+
+def merged_field_call(value, alias):
+    alias_kw = kw("alias", const(alias))
+    is_field_call = z3.And(GQ.is_cls(value, V.REG.info(ast.Call)), GQ.is_cls(V.attr_of(value, ast.Call, "func"), V.REG.info(ast.Name)),
+                           V.attr_of(V.attr_of(value, ast.Call, "func"), ast.Name, "id") == S(K.FIELD_CLASS))
+    kws = z3.If(V.is_VNone(value), V.VCons(alias_kw, V.VNil),
+                z3.If(is_field_call, V.VCons(alias_kw, V.vl(V.attr_of(value, ast.Call, "keywords"))),
+                      V.VCons(alias_kw, V.VCons(kw("default", value), V.VNil))))
+    return mk(ast.Call, func=name_(K.FIELD_CLASS), args=lst(), keywords=V.VList(kws))
+
+
+from pyvc.contract import Args                                              # noqa: E402
+
+
+class _DefaultValueStub(ParseInputFieldDefaultValue):
+    """the contract proved above, in functional form for the call site"""
+    props = ()
+    use_at_calls = True
+
+    def result_term(self, A):
+        return default_expr(A.node, A.annotation, A.field_type, A.field)
+
+
+class _ProcessFieldValueStub(ProcessFieldValue):
+    props = ()
+    use_at_calls = True
+
+    def result_term(self, A):
+        fi = A.field_implementation
+        return merged_field_call(V.attr_of(fi, ast.AnnAssign, "value"), A.alias)
+
+
+def field_assign(pair, snake, scalars):
+    org, field = V.pkey(pair), V.pval(pair)
+    t = V.attr_of(field, G.GraphQLInputField, "type")
+    ann = img_in(t, z3.BoolVal(True), scalars)
+    ft = leaf_in(t, scalars)
+    name = PYNAME_IN(org, snake)
+    dv = default_expr(V.attr_of(field, G.GraphQLInputField, "ast_node"), ann, ft, field)
+    value = z3.If(name != org, merged_field_call(dv, org), dv)
+    return mk(ast.AnnAssign, target=name_(name), annotation=ann, value=value, simple=1)
+
+
+FIELD_ASSIGNS = SpecMap("input_field_assignments", field_assign, param_sorts=(V.Val, V.Val))
+_SCAL = z3.Const("custom_scalars", V.Val)
+
+
+def _field_facts(f):
+    """ghost facts about a schema field (validity of the schema / assumed dependency contract), stated per field so that no
+    quantifier is needed: what ast_from_value delivers is a literal or None; the default literal of a field sits at a position
+    whose leaf type is the field's leaf type"""
+    t = V.attr_of(f, G.GraphQLInputField, "type")
+    afv = AST_FROM_VALUE(V.attr_of(f, G.GraphQLInputField, "default_value"), t)
+    d = default_literal(Args(node=V.attr_of(f, G.GraphQLInputField, "ast_node"), field=f))
+    return z3.And(Opt(GQ.LIT).pred(afv), z3.Implies(z3.Not(V.is_VNone(d)), LEAF_AT(d) == leaf_in(t, _SCAL)))
+
+
+_IN_FIELD_CLS = Cls(G.GraphQLInputField, type=GQ.IN_TYPE, default_value=Any, ast_node=Opt(NODE))
+IN_FIELD = Pred(lambda f: z3.And(_IN_FIELD_CLS.pred(f), _field_facts(f)), "input-field-with-ghost-facts")
+IN_FIELDS = DictOf(GQ.NAME, IN_FIELD, name="input_fields")
+
+
+class ParseInputDefinition(Contract):
+    props = ("C06", "C18", "C03")
+    target = "ariadne_codegen.client_generators.input_types:InputTypesGenerator._parse_input_definition"
+    use_at_calls = False
+    frame_args = False
+    trusted = ["process_name: a function of the name and the flags (its own contract: C18)",
+               "graphql-core: ast_from_value (see parse_input_field_default_value)"]
+
+    def setup(self, E):
+        snake = E.sym_bool("convert_to_snake_case")
+        scalars = E.sym("custom_scalars", SCALARS)
+        d = E.sym("definition", Cls(G.GraphQLInputObjectType, name=GQ.NAME, fields=IN_FIELDS))
+        from pyvc.val import MDefaultDict, MList
+        self_ = self_obj(IT.InputTypesGenerator, dict(convert_to_snake_case=snake, plugin_manager=None, custom_scalars=scalars,
+                                                      schema=Obj(FakeSchema, {"type_map": E.sym("type_map", Any)})))
+        _stub_save_dependencies(self_)
+        return [self_, d], {}
+
+    @property
+    def loops(self):
+        snake, scalars = V.VBool(z3.Bool("convert_to_snake_case")), z3.Const("custom_scalars", V.Val)
+
+        def inv(rest, xs, st, I, env):
+            cur = V.vl(st["class_def.body"]) if "class_def.body" in st else V.VNil
+            return append_map_inv(cur, rest, xs, FIELD_ASSIGNS, params=(snake, scalars))
+        return {"InputTypesGenerator._parse_input_definition": inv}
+
+    def requires(self, A):
+        return z3.BoolVal(True)
+
+    def ensures(self, A, res):
+        snake = A["convert_to_snake_case"] if "convert_to_snake_case" in A else V.VBool(z3.Bool("convert_to_snake_case"))
+        scalars = A["custom_scalars"] if "custom_scalars" in A else z3.Const("custom_scalars", V.Val)
+        fields = V.vd(V.attr_of(A.definition, G.GraphQLInputObjectType, "fields"))
+        return {"class-named-like-the-input-type-deriving-BaseModel": z3.And(
+                    V.attr_of(res, ast.ClassDef, "name") == GQ.name_of(A.definition), V.attr_of(res, ast.ClassDef, "bases") == lst(name_(K.BASE_MODEL_CLASS_NAME))),
+                "one-field-per-schema-field/annotation-is-the-image/default-kept/alias-iff-renamed": V.vl(V.attr_of(res, ast.ClassDef, "body")) == FIELD_ASSIGNS(fields, snake, scalars)}
+
+    def replay_custom(self, inputs):
+        return dict(inputs={k: str(v)[:200] for k, v in inputs.items()}, failed=[], pre_ok=True, outcome=None, error=None,
+                    undetermined=["replayed end to end by contracts.e2e_defaults / e2e_variables / c18 wire-names"])
+
+
+def _stub_save_dependencies(self_):
+    from pyvc.interp import ModelMethod
+
+    def call(I, o, a, k):
+        I.p.effect("save_dependencies", (a, dict(k)))
+        return None
+    self_.attrs["_save_dependencies"] = ModelMethod(self_, call, "_save_dependencies")
+
+
+from .c06_input_types import ParseInputFieldType                             # noqa: E402
+
+
+class _FieldTypeCallee(ParseInputFieldType):
+    props = ()
+
+
+CONTRACTS = [ParseInputFieldDefaultValue(), ProcessFieldValue(), ParseInputDefinition(), _Callee(), _ProcessNameStubIn(), _DefaultValueStub(),
+             _ProcessFieldValueStub(), _FieldTypeCallee()]
